@@ -822,3 +822,129 @@ Proof.
     repeat split; auto. eapply sched_eff_started_gt; eauto.
   - destruct (e =? 0) eqn:Ee; [lia|discriminate].
 Qed.
+
+(* ================================================================== *)
+(* The statements of Props/C17.v *)
+Lemma rt_times_strict_l : forall c w0 ls s, wfc c -> run c w0 ls s ->
+  decreasing (map ct (cycles s)) /\ Forall (fun a => c_start c <= ct a) (cycles s).
+Proof. intros c w0 ls s Hw Hr. destruct (run_Inv _ _ _ _ Hw Hr) as (_ & _ & Hc). apply chain_decreasing; auto. Qed.
+
+Lemma rt_cycle_is_latest_advance_l : forall c w0 ls s t s', wfc c -> run c w0 ls s ->
+  gstep c s (LEvalBegin t) = Some s' ->
+  exists a rest, cycles s = a :: rest /\ ct a = t /\ ph s' = PEvalPre t /\ cycles s' = cycles s.
+Proof. intros c w0 ls s t s' Hw Hr H. eapply evalbegin_latest; eauto using run_Inv. Qed.
+
+Lemma eval_time_formula_l : forall c w0 ls s, wfc c -> run c w0 ls s ->
+  Forall (fun a => ct a = Z.min (ctgt a) (Z.max (cw a) (cprev a + MIN_TD))) (tl (cycles s)) /\
+  (cut s = false -> Forall (fun a => ct a = Z.min (ctgt a) (Z.max (cw a) (cprev a + MIN_TD))) (cycles s)) /\
+  Forall (fun a => ctgt a <= c_end c /\ (cw a < ctgt a -> cwk a = true)) (cycles s).
+Proof.
+  intros c w0 ls s Hw Hr. destruct (run_Inv2 _ _ _ _ Hw Hr) as (_ & H2 & H3 & _).
+  destruct (run_Inv _ _ _ _ Hw Hr) as (_ & _ & Hc). apply chain_forall in Hc.
+  split; [exact H2|]. split; [exact H3|].
+  eapply Forall_impl; [|exact Hc]. intros a (A1 & A2 & _). auto.
+Qed.
+
+Lemma rt_never_early_l : forall c w0 ls s a, wfc c -> run c w0 ls s ->
+  In a (tl (cycles s)) \/ (cut s = false /\ In a (cycles s)) ->
+  ct a <= ctgt a /\ ct a <= Z.max (cw a) (cprev a + MIN_TD) /\
+  (cprev a + MIN_TD < ct a -> ct a <= cw a) /\
+  (ctgt a <= cw a -> cprev a < ctgt a -> ct a = ctgt a).
+Proof.
+  intros c w0 ls s a Hw Hr Ha. destruct (run_Inv2 _ _ _ _ Hw Hr) as (_ & H2 & H3 & _).
+  assert (He : exact a).
+  { destruct Ha as [Ha|(Hc & Ha)]; [rewrite Forall_forall in H2; auto|].
+    specialize (H3 Hc). rewrite Forall_forall in H3; auto. }
+  unfold exact, eval_time, MIN_TD in *. lia.
+Qed.
+
+Lemma rt_never_skips_l : forall c w0 ls s p, wfc c -> run c w0 ls s -> cut s = false ->
+  In p (pend s) -> ev s <= p.
+Proof. intros c w0 ls s p Hw Hr Hc Hin. eapply Inv_ev_le_pend; eauto using run_Inv. Qed.
+
+Lemma rt_evaluated_at_exactly_its_time_l : forall c w0 ls s l s' p, wfc c -> run c w0 ls s ->
+  gstep c s l = Some s' -> In p (pend s) -> ~ In p (pend s') ->
+  l = LEvalEnd /\ ev s = p /\ (ph s = PEval p \/ ph s = PEvalPre p).
+Proof. intros c w0 ls s l s' p Hw Hr H Hin Hout. eapply gstep_pend_removed; eauto using run_Inv. Qed.
+
+Lemma Inv_no_drop : forall c s p, Inv c s -> ph s = PDone -> stop s = false -> cut s = false -> In p (pend s) -> c_end c <= p.
+Proof.
+  intros c s p (HP & _) Hd Hs Hc Hin. unfold phase_inv in HP. rewrite Hd in HP. destruct HP as (H1 & H2).
+  specialize (H1 Hc _ Hin). specialize (H2 Hs). lia.
+Qed.
+
+Lemma rt_no_drop_l : forall c w0 ls s p, wfc c -> run c w0 ls s ->
+  ph s = PDone -> stop s = false -> cut s = false -> In p (pend s) -> c_end c <= p.
+Proof. intros c w0 ls s p Hw Hr. apply Inv_no_drop. eapply run_Inv; eauto. Qed.
+
+Lemma rt_every_due_wakeup_evaluated_l : forall c w0 ls1 s1 ls2 s2 p, wfc c ->
+  run c w0 ls1 s1 -> exec c s1 ls2 = Some s2 ->
+  In p (pend s1) -> p < c_end c -> ph s2 = PDone -> stop s2 = false -> cut s2 = false ->
+  exists la sm lb, ls2 = la ++ LEvalEnd :: lb /\ exec c s1 la = Some sm /\ ev sm = p /\
+                   (ph sm = PEval p \/ ph sm = PEvalPre p).
+Proof.
+  intros c w0 ls1 s1 ls2 s2 p Hw Hr1 H2 Hin Hlt Hd Hs Hc.
+  pose proof (run_Inv _ _ _ _ Hw Hr1) as HI1. pose proof (Inv_exec _ _ _ _ Hw HI1 H2) as HI2.
+  apply (exec_pend_removed c ls2 s1 s2 p Hw HI1 H2 Hin).
+  intros Hin2. pose proof (Inv_no_drop _ _ _ HI2 Hd Hs Hc Hin2). lia.
+Qed.
+
+Lemma drain_cut_only_then_l : forall c w0 ls s, wfc c -> run c w0 ls s -> cut s = true ->
+  exists a rest, cycles s = a :: rest /\ ct a = c_end c /\ c_end c <= cw a /\
+    Z.min (ctgt a) (Z.max (cw a) (cprev a + MIN_TD)) <= cprev a + MIN_TD /\
+    (1024 <= length rest)%nat /\ Forall (fun b => ct b = cprev b + MIN_TD) (firstn 1024 rest).
+Proof.
+  intros c w0 ls s Hw Hr Hc. destruct (run_Inv2 _ _ _ _ Hw Hr) as (_ & _ & _ & H4).
+  destruct (H4 Hc) as (a & rest & E & A1 & A2 & A3 & (R0 & R1 & R2)).
+  exists a, rest. repeat split; auto;
+    first [ unfold MAX_DRAIN in R1; lia
+          | replace 1024%nat with (Z.to_nat MAX_DRAIN) by (unfold MAX_DRAIN; lia); exact R2 ].
+Qed.
+
+Lemma already_due_alarm_l : forall now w when,
+  (exists e, sched_abs true now w when true = Some e) /\
+  (when <= Z.max now w -> sched_abs true now w when true = Some (Z.max (now + MIN_TD) w)) /\
+  (Z.max now w < when -> sched_abs true now w when true = Some when).
+Proof.
+  intros; split; [apply wall_alarm_never_dropped|]. split; [apply wall_alarm_due | apply wall_alarm_future].
+Qed.
+
+Lemma request_enters_pending_l : forall c w0 ls s k a w1 w2 e s' t, run c w0 ls s ->
+  gstep c s (LReq k a w1 w2 e) = Some s' -> ph s = PEval t -> e <> 0 ->
+  sched_eff true (ev s) k a w1 w2 = Some e /\ ev s < e /\ In e (pend s') /\ ev s' = ev s.
+Proof. intros c w0 ls s k a w1 w2 e s' t _. apply req_enters_pending. Qed.
+
+Lemma stop_ends_after_current_l : forall c w0 ls s ls' s', run c w0 ls s -> stop s = true ->
+  exec c s ls' = Some s' ->
+  stop s' = true /\ ~ In LTop ls' /\ ~ In LWaitBefore ls' /\ (forall t, ~ In (LEvalBegin t) ls').
+Proof. intros c w0 ls s ls' s' _ Hs H. eapply stop_exec; eauto. Qed.
+
+Lemma stop_exits_within_l : forall c w0 ls s ls' s', run c w0 ls s -> stop s = true ->
+  in_loop_code (ph s) = true -> exec c s ls' = Some s' ->
+  loop_len ls' <= togo (ph s) /\ togo (ph s) <= 4 /\ (loop_len ls' = togo (ph s) -> ph s' = PDone).
+Proof.
+  intros c w0 ls s ls' s' _ Hs Hin H. destruct (stop_exits_within _ _ _ _ H Hs Hin) as (A & B).
+  repeat split; auto. destruct (ph s); simpl; lia.
+Qed.
+
+Lemma no_missed_l : forall c w0 ls s tgt sg, run c w0 ls s ->
+  ph s = PWait tgt sg -> wake_requested s = true -> 0 < notif s \/ sg = true.
+Proof.
+  intros c w0 ls s tgt sg Hr Hp Hf. pose proof (Inv3_exec _ _ _ _ (Inv3_init c w0) Hr) as (_ & H).
+  rewrite Hp in H. auto.
+Qed.
+
+Lemma wait_only_without_flags_l : forall c s s', gstep c s LWaitBefore = Some s' -> wake_requested s = false.
+Proof.
+  intros c s s' H. unfold gstep in H. destruct (step c s LWaitBefore) as [s1|] eqn:Hs; [|discriminate].
+  unfold step in Hs; simpl in Hs. destruct (ph s); try discriminate.
+  match type of Hs with (if ?b then _ else _) = _ => destruct b eqn:Eb end; [|discriminate].
+  destruct (wake_requested s); auto. rewrite Bool.andb_false_r in Eb. discriminate.
+Qed.
+
+Lemma acceptor_sound_l : forall c ls s s', exec_ix c s ls 0 = (-1, s') <-> exec c s ls = Some s'.
+Proof.
+  intros c ls s s'; split; intros H.
+  - apply (exec_ix_spec c ls s 0 s'); [rewrite H; auto | lia | rewrite H; auto].
+  - apply exec_ix_complete; auto.
+Qed.
